@@ -113,7 +113,7 @@ def c17(run):
 
 
 def c20(run):
-    run.scen("MC_Limits", {}, own=lambda m: not site_of(m).startswith("prefixed_read"))       # VOL / CLM size vectors (sparse files), size-prefixed container writes
+    run.scen("MC_Limits", {}, own=lambda m: not site_of(m).startswith(("prefixed_read", "typed_roundtrip")))       # VOL / CLM size vectors (sparse files), size-prefixed container writes
     run.scen("MC_LimitsPrt", {"MaxLayers": 130})                         # every layer-list length 0..130 against every 7-bit count
     run.scen("MC_Clm", {"MaxFiles": 1}, own=by_prefix("clm_create", "scenario"), name="MC_Clm (names of 8 and 9 characters)")
 
@@ -353,7 +353,7 @@ def c14(run):
 
 
     # (c) size-prefixed writes refuse what does not fit and are inverted by the typed reads
-    run.scen("MC_Limits", {}, own=by_prefix("prefixed_write", "scenario"), name="MC_Limits (size-prefixed containers)")
+    run.scen("MC_Limits", {}, own=by_prefix("prefixed_write", "typed_roundtrip", "scenario"), name="MC_Limits (size-prefixed containers, typed round trips)")
     # (d) the copy loop: TLC checks termination and dest = src[start..len) on the loop as the code structures it, exports every behaviour
     g = vlib.generate("CopyLoop", {"MaxLen": 9 if run.thorough else 7, "MaxChunk": 4}, invariants=("PosInBounds", "CopiesExactlyTheRest", "OnlySourceBytes", "ReadCount", "Export"),
                       properties=("Terminates",), workers=4)
